@@ -158,7 +158,7 @@ fn f_subs(prop: &'static str) -> Vec<(FSub, u32, u32, usize)> {
 
 fn rule_for(prop: &str) -> &'static str {
     match prop {
-        "C01" => "cases = proptest-generated class-S benches (1-4 scripted models, event sources) + 3-40 driver commands, each executed on the real Simulation and judged by the sequential reference simulator RefSim; non-trivial = >=2 distinct deadlines fired AND (a handler scheduled an event due inside a running step_until window OR a step_until target fell strictly between two deadlines OR same-deadline events on >=2 models); distinct = hash of the JSON case",
+        "C01" => "cases = proptest-generated class-S benches (1-4 scripted models, event sources) + 3-40 driver commands, each executed on the real Simulation and judged by the sequential reference simulator RefSim; non-trivial = >=2 distinct deadlines fired AND (a handler scheduled an event due inside a running step_until window OR a step_until target fell strictly between two deadlines OR same-deadline events on >=2 models). c08-race (run for C01): while 1-3 threads schedule through Scheduler handles, Simulation::time() and handler times never decrease and no handler runs at or before the time its stepping call started at; distinct = hash of the JSON case",
         "C07" => "class-S cases biased to coinciding deadlines; non-trivial = a (time, origin, target) group of >=3 events containing a periodic occurrence while another origin is active for the same model and time (or group>=3 with two origins); distinct = hash of the JSON case",
         "C08" => "validation: class-S cases biased to past/present deadlines and zero periods through all request kinds (5 Scheduler methods, 4 EventSource action kinds, 4 Context methods); non-trivial = at least one request kind with both a rejected and an accepted request in the case. c08-race: 1-3 real threads issuing schedule_event requests (absolute = time()+d, relative d; 20-2000 per thread) while the driver executes 10-120 step / step_until calls with or without a periodic background; accepted requests fire exactly once at their deadline (relative: within [t_before+d, t_after+d]), rejected ones never, handlers never run at or before the time a call started at, time never decreases, step_until(d) ends exactly d later; non-trivial = >=50 requests, >=1 accepted and >=1 rejected absolute request, and the time advanced during at least one request; distinct = hash of the JSON case",
         "C09" => "class-S cases biased to keyed events and cancellations; non-trivial = a cancellation that took effect in the same time slice as the target's deadline, or a periodic series cancelled after >=1 occurrence; distinct = hash of the JSON case",
@@ -226,6 +226,16 @@ fn run_property(prop: &'static str, tier: &str, seed: u64) -> i32 {
                 let n = ctx.n(3000, 60_000);
                 ctx.run(&RSub { mt: None }, n, 4);
                 let n = ctx.n(300, 6_000);
+                ctx.run(&RSub { mt: Some(4) }, n, 4);
+                core::TIME_SITES.store(false, std::sync::atomic::Ordering::SeqCst);
+            }
+            if prop == "C01" {
+                // time never decreases / nothing runs in the past, also while other threads
+                // schedule through Scheduler handles
+                core::TIME_SITES.store(true, std::sync::atomic::Ordering::SeqCst);
+                let n = ctx.n(1500, 30_000);
+                ctx.run(&RSub { mt: None }, n, 4);
+                let n = ctx.n(150, 3_000);
                 ctx.run(&RSub { mt: Some(4) }, n, 4);
                 core::TIME_SITES.store(false, std::sync::atomic::Ordering::SeqCst);
             }
